@@ -108,9 +108,7 @@ def run(ctx):
     case = ctx.replay_case()
     if case:
         steps = case["steps"]
-        if case.get("scan"):
-            steps[-1] = dict(steps[-1], final=case["views"])
-        else:   # the failing step is the last one: no scan needed, give the driver a dummy-free run
+        if case.get("scan"):   # the failure was seen by the full scan after the last step
             steps[-1] = dict(steps[-1], final=case["views"])
         x = {"variants": [case["variant"]], "keys": case["keys"], "stores": case["stores"], "prefix_replays": 0}
         out = vlib.run_driver(ctx, binary, ["-x", json.dumps(x)], behaviours=[steps])
